@@ -88,6 +88,8 @@ def text(n, home, top=True):
         return '(%s)' % ','.join(text(a, home, False) for a in n[1])
     if k == 'isect':
         return '%s %s' % (text(n[1], home, False), text(n[2], home, False))
+    if k == 'colon':
+        return '%s:%s' % (text(n[1], home, False), text(n[2], home, False))
     if k == 'name':
         return n[2] if home[0] == n[1] else "'[%s]'!%s" % (n[1], n[2])
     if k == 'op':
@@ -231,6 +233,11 @@ class Env:
             if c1 > c2 or r1 > r2:
                 return NULL
             return Rng(a.book, a.sheet, (c1, r1, c2, r2))
+        if k == 'colon':          # the range operator: bounding rectangle of its two (single-area, same-sheet) operands
+            a, b = self.ev(n[1], host), self.ev(n[2], host)
+            if not isinstance(a, Rng) or not isinstance(b, Rng) or (a.book, a.sheet) != (b.book, b.sheet):
+                raise Ambiguous('range operator over something else than two areas of one sheet')
+            return Rng(a.book, a.sheet, (min(a.rect[0], b.rect[0]), min(a.rect[1], b.rect[1]), max(a.rect[2], b.rect[2]), max(a.rect[3], b.rect[3])))
         if k == 'name':
             nk = '%s|%s' % (n[1], n[2])
             if ('N', nk) in self.over:
